@@ -20,7 +20,7 @@ func init() { register(c12{}) }
 
 func (c12) ID() string { return "C12" }
 func (c12) Cases(t fw.Tier) int {
-	return tierN(t, 50000, 1500000)
+	return tierN(t, 200000, 3000000)
 }
 func (c12) Processes(t fw.Tier) int { return tierN(t, 2, 4) }
 func (c12) Rule() string {
@@ -83,7 +83,20 @@ func (c12) unique(c *fw.Case) {
 	}
 	n := r.IntN(13)
 	model := make([]any, n)
+	numericOnly := r.IntN(5) == 0 // arrays of numbers only: typed numeric containers and []json.Number become possible
+	if numericOnly {
+		for i := range pool {
+			pool[i] = json.Number(gen.Pick(r, gen.Numbers))
+		}
+	}
 	for i := range model {
+		if numericOnly {
+			model[i] = gen.Clone(pool[r.IntN(poolN)])
+			if r.IntN(3) == 0 {
+				model[i] = json.Number(gen.Pick(r, []string{"1", "1.0", "1e0", "10e-1", "0", "-0", "0.0", "-0.0", "100", "1e2", "1E2", "2", "2.0"}))
+			}
+			continue
+		}
 		if r.IntN(3) == 0 {
 			model[i] = gen.Value(r, gen.ValueOpts{MaxDepth: 2, BigInts: true, MaxLen: 2}, 0)
 		} else if r.IntN(4) == 0 {
@@ -97,6 +110,9 @@ func (c12) unique(c *fw.Case) {
 		i, j := r.IntN(n), r.IntN(n)
 		if i != j {
 			model[j] = gen.Clone(model[i])
+			if r.IntN(2) == 0 {
+				model[j] = gen.Respell(r, model[j]) // 0 / -0 / 0.0, 1 / 1.0 / 1e0, also inside containers
+			}
 			planted = fmt.Sprintf("%d,%d", min(i, j), max(i, j))
 		}
 	}
@@ -118,9 +134,15 @@ func (c12) unique(c *fw.Case) {
 			}
 		}
 	}
-	// container: []any, or a Go array of any
+	// container: []any, a Go array of any, or (30%) whatever typed container the representation generator picks for the whole
+	// array ([]json.Number with different spellings of equal numbers, []float64, [][]any, []map[string]int, ...)
 	var inst any = els
-	if r.IntN(4) == 0 {
+	if k := r.IntN(10); k < 3 || numericOnly && k < 8 {
+		whole := gen.Repr(r, model, gen.ReprOpts{}, nil)
+		if canon.Must(whole) == canon.Must(els) {
+			inst = whole
+		}
+	} else if k == 3 {
 		a := reflect.New(reflect.ArrayOf(n, reflect.TypeOf((*any)(nil)).Elem())).Elem()
 		for i, e := range els {
 			if e != nil {
